@@ -54,6 +54,13 @@ for _l in LIGHT_LAYOUTS:
 UNITS['cli'] = dict(fragments=PRE + [os.path.join(VF, 'prelude', 'cli.rs')] + T('lemmas.rs', 'numth.rs', 'transcript.rs', 'pow.rs', 'commitment.rs', 'fri.rs', 'air.rs', 'stark.rs', 'cli.rs'),
                     features=DEFAULT_FEATURES, threads=8, only_modules=['swiftness_cli::transform', 'swiftness_air::dynamic'])
 
+# "mid" layout units: the light unit plus validate_public_input / verify_public_input under the C14 / C18 contracts
+MID_LAYOUTS = ('dex', 'small', 'recursive_with_poseidon', 'starknet', 'starknet_with_keccak')
+for _l in MID_LAYOUTS:
+    UNITS['layoutmid_' + _l] = dict(fragments=PRE + T('lemmas.rs', 'numth.rs', 'transcript.rs', 'pow.rs', 'commitment.rs', 'fri.rs', 'air.rs'),
+                                    features={'std', 'keccak_160_lsb', 'keccak', 'stone5', 'mid_' + _l}, threads=4,
+                                    only_modules=['swiftness_air::layout::' + _l])
+
 # property -> units per tier, claim text for the manifest
 PROPS = {
     'C01': dict(quick=['core'], thorough=['core'],
@@ -85,9 +92,9 @@ PROPS = {
                 technique='functional postcondition + loop invariant (pedersen chain) on PublicInput::get_hash',
                 note='The three iterator statements enter through hoisting rules with assumed std semantics; the 340-field dynamic-params flattening is an uninterpreted sequence in this unit. Injectivity = hash injectivity (idealised). Not decided: reproduction of the prover\'s first challenges.'),
     'C14': dict(quick=['core'], thorough=['core'],
-                claim='For the recursive layout validate_public_input is proved to accept exactly the code-level predicate pi_checked, every input satisfying the memory-layout oracle pi_ok (step count = trace length/16, 6 segments, layout code, 0<=rc_min<rc_max<=2^16-1, builtin usages whole instances within floor(trace/row_ratio): pedersen 3 cells/2048 rows, range-check 1/128, bitwise 5/128) is accepted, and acceptance implies pi_ok whenever the trace holds at least one instance (log_n_steps >= 7). The unconditional direction and the address-based reading of the returned hashes FAIL on the current tree: recorded as known findings with concrete witnesses (witness/kf_tests.rs).',
-                technique='exact (<=>) and per-conjunct postconditions on LayoutTrait::validate_public_input / verify_public_input of the layout, field-division lemmas',
-                note='Other layouts: see evidence (thorough tier). The iterator chains of verify_public_input enter through hoisting rules (A-iter).'),
+                claim='For the six static layouts (recursive, dex, small, recursive_with_poseidon, starknet, starknet_with_keccak) validate_public_input is proved to accept EXACTLY the inputs satisfying the memory-layout oracle pi_ok of the layout (step count = trace length/16, segment count, layout code, 0<=rc_min<rc_max<=2^16-1, output usage below 2^128, every builtin usage a whole number of instances not exceeding floor(trace_length/row_ratio), with the per-layout table of segments / cells per instance / row ratios), for every trace length (this holds since fix d0bb0cf; before it three obligations failed). verify_public_input: no panic for any input (since fixes 9ea2566, 7494f86) and the positional facts the code establishes; the address-based reading of the returned hashes demanded by the statement FAILS on the current tree in every layout: recorded as known findings with a concrete witness.',
+                technique='exact (<=>) and per-conjunct postconditions on LayoutTrait::validate_public_input / verify_public_input of each layout, field-division lemma lemma_builtin_checked; per-layout oracles generated from the layout constants (vf/gen_layout_mid.py)',
+                note='The dynamic layout (builtin table given by proof-supplied dynamic parameters, 790 lines) is NOT under contract: a change there is not seen. The iterator chains of verify_public_input enter through hoisting rules (A-iter).'),
     'C15': dict(quick=['core'], thorough=['core'],
                 claim='Page::get_product, get_continuous_pages_product, get_public_memory_product(_ratio) are proved equal to their defining products/quotient; get_diluted_product is proved equal to the doubling recurrence (p,q,x,diff_x) after n_bits-1 steps and to terminate.',
                 technique='loop invariants on Page::get_product, get_continuous_pages_product, get_diluted_product; functional postconditions on the memory product functions',
@@ -137,10 +144,15 @@ PROPS['C19'] = dict(quick=['cli'], thorough=['cli'],
     technique='per-field postconditions on each TransformTo impl + trait-level relation same_as; parser-side struct definitions extracted verbatim from proof_parser/src/stark_proof.rs',
     note='NOT decided (outside the reach of a deductive verifier here): the JSON / annotation parser itself (serde_json, regex extraction of annotation lines, hex parsing, builtin-name ordering, BTreeMap key order vs field order) -- string and regex code; the proof_parser and cli crates do not even build offline in this sandbox (anyhow / clap / regex are not in the registry), so no bounded stand-in either. Field-element strings >= P are reduced mod P by starknet-types-core (stated as the guard of the clauses).')
 
+# C14 / C18: the five static layouts besides `recursive` (validate_public_input, verify_public_input)
+_MID = ['layoutmid_' + _l for _l in MID_LAYOUTS]
+PROPS['C14']['quick'] = ['core'] + _MID
+PROPS['C14']['thorough'] = ['core'] + _MID
+
 # thorough tier: every hash / stone variant of the core unit for the properties whose code is cfg-dependent
 for _p in ('C01', 'C02', 'C04', 'C05', 'C07', 'C09', 'C13', 'C17', 'C18'):
     PROPS[_p]['thorough'] = list(dict.fromkeys(PROPS[_p]['thorough'] + VARIANTS))
-PROPS['C18']['thorough'] = list(dict.fromkeys(PROPS['C18']['thorough'] + _LIGHT + ['autogen_recursive', 'autogen_dex', 'autogen_small', 'autogen_recursive_with_poseidon', 'autogen_starknet']))
+PROPS['C18']['thorough'] = list(dict.fromkeys(PROPS['C18']['thorough'] + _LIGHT + _MID + ['autogen_recursive', 'autogen_dex', 'autogen_small', 'autogen_recursive_with_poseidon', 'autogen_starknet']))
 
 NOT_APPLICABLE = {
     'C03': 'quantifies over outputs of an external prover (25 shipped Stone proofs) and over compile-time builds; only running each proof through each build decides it, which is a test matrix, not a contract (DESIGN.md C03)',
